@@ -17,7 +17,7 @@
 #include "h_gen.h"
 #include "h_tree.h"
 
-static int opt_dedup, opt_noops, opt_suffix, opt_lean, opt_faults;
+static int opt_dedup, opt_noops, opt_suffix, opt_lean, opt_faults, opt_libc;
 static long last_load_requests; /* allocator requests made by the most recent cbor_load */
 static int in_fault_run;
 static long opt_stack_kb;
@@ -566,8 +566,58 @@ static void seq_case(int nitems) {
   emitted++;
 }
 
+#include <sys/mman.h>
+/* x at the start of a huge, never-touched (all zero) mapping: the suffix may be longer than 4 GiB */
+static void huge_suffix_case(const unsigned char* x, size_t xn, size_t total) {
+  input_index++;
+  if (input_index <= opt_skip) return;
+  executed++;
+  unsigned char* big = mmap(NULL, total, PROT_READ | PROT_WRITE, MAP_PRIVATE | MAP_ANONYMOUS | MAP_NORESERVE, -1, 0);
+  if (big == MAP_FAILED) return;
+  memcpy(big, x, xn);
+  cur_in = x; cur_len = xn;
+  struct cbor_load_result r;
+  cbor_verif_load_hook = NULL;
+  cbor_item_t* it = cbor_load(big, total, &r);
+  cbor_verif_load_hook = hook;
+  fputs("{\"e\":\"suffix\",\"x\":", vh_out);
+  vh_bytes(x, xn);
+  fprintf(vh_out, ",\"y\":[0],\"ylen\":%zu,\"a\":", total - xn);
+  quiet_load_json(vh_out, x, xn);
+  fprintf(vh_out, ",\"b\":{\"ok\":%s,\"code\":\"%s\",\"read\":", it ? "true" : "false", code_name(r.error.code));
+  FILE* save = vh_out;
+  vh_u64(r.read);
+  fputs(",\"tree\":", vh_out);
+  vt_tree(vh_out, it);
+  fputs("}}\n", vh_out);
+  vh_out = save;
+  if (it) cbor_decref(&it);
+  munmap(big, total);
+  emitted++;
+}
+
 static void seq_mode(long count) {
   static unsigned char x[8192], y[8192];
+  { /* small and degenerate items followed by paddings of several lengths: nothing about x may depend on how much follows */
+    static const char* edge[] = {"00", "17", "1818", "20", "40", "60", "80", "a0", "9fff", "bfff", "5fff", "7fff", "f6", "f4", "c000", "d81820", "8100", "9f00ff", "a10000", "bf0000ff",
+                                 "5f40ff", "7f60ff", "8180", "9f9fffff", "c19fff", "bf009fffff", "f97c00", "fa00000000", "3a00010000", "1b0000000000000000", "5f4100ff", "829fffbfff"};
+    static const size_t pads[] = {1, 2, 3, 4, 7, 8, 9, 10, 15, 16, 17, 40, 100};
+    for (size_t e = 0; e < sizeof edge / sizeof *edge; e++) {
+      size_t xn = 0;
+      for (const char* p = edge[e]; p[0] && p[1]; p += 2) { unsigned v; sscanf(p, "%2x", &v); x[xn++] = (unsigned char)v; }
+      suffix_case(x, xn, y, 0);
+      for (size_t pi = 0; pi < sizeof pads / sizeof *pads; pi++)
+        for (int fill = 0; fill < 3; fill++) {
+          memset(y, fill == 0 ? 0x00 : fill == 1 ? 0xff : 'x', pads[pi]);
+          suffix_case(x, xn, y, pads[pi]);
+        }
+      if (e % 4 == 0) {
+        static const size_t totals[] = {0xffffffffull, 0x100000000ull, 0x100000003ull, 0x100001000ull, 0x200000000ull};
+        for (int ti = 0; ti < 5; ti++) huge_suffix_case(x, xn, (size_t)totals[ti] + (ti == 2 ? 0 : 0));
+        huge_suffix_case(x, xn, (size_t)0x100000000ull + xn - 1);
+      }
+    }
+  }
   for (long i = 0; i < count; i++) {
     size_t xn = gen_item(x, 2048, (int)vh_randn(5));
     suffix_case(x, xn, y, 0);
@@ -617,12 +667,13 @@ static int real_main(int argc, char** argv) {
     else if (!strcmp(argv[a], "--suffix")) opt_suffix = 1;
     else if (!strcmp(argv[a], "--skip")) opt_skip = atol(argv[++a]);
     else if (!strcmp(argv[a], "--lean")) opt_lean = 1;
+    else if (!strcmp(argv[a], "--libc")) opt_libc = 1;
     else if (!strcmp(argv[a], "--faults")) opt_faults = atoi(argv[++a]);
     else if (!strcmp(argv[a], "--stack")) opt_stack_kb = atol(argv[++a]);
   }
   if (a >= argc) return 2;
   devnull = fopen("/dev/null", "w");
-  va_install();
+  if (!opt_libc) va_install(); /* --libc: the C library's own malloc/realloc/free (e.g. realloc(p, 0) returning NULL) */
 #ifdef HAVE_SAN
   __sanitizer_set_death_callback(on_death);
 #endif
@@ -686,6 +737,28 @@ static int real_main(int argc, char** argv) {
       size_t n = gen_item(buf, i % 40 == 7 ? 80000 : 4096, 1 + (int)vh_randn(5));
       mutate_and_load(buf, n);
     }
+  } else if (!strcmp(mode, "big")) {
+    /* shallow trees with very large payloads / member counts (size parameter in KiB): stack use must not grow with them */
+    size_t kb = (size_t)atol(argv[a + 1]);
+    size_t payload = kb * 1024;
+    unsigned char* big = malloc(payload * 3 + 64);
+    for (int kind = 0; kind < 7; kind++) {
+      size_t n = 0;
+      switch (kind) {
+        case 0: case 1: /* definite byte / text string */
+          big[n++] = kind ? 0x7a : 0x5a; big[n++] = (unsigned char)(payload >> 24); big[n++] = (unsigned char)(payload >> 16); big[n++] = (unsigned char)(payload >> 8); big[n++] = (unsigned char)payload;
+          memset(big + n, kind ? 'a' : 0xA5, payload); n += payload; break;
+        case 2: { size_t c = payload / 2; big[n++] = 0x9a; big[n++] = (unsigned char)(c >> 24); big[n++] = (unsigned char)(c >> 16); big[n++] = (unsigned char)(c >> 8); big[n++] = (unsigned char)c;
+                  memset(big + n, 0x01, c); n += c; break; }                                          /* array of c small ints */
+        case 3: { size_t c = payload / 4; big[n++] = 0xbf; for (size_t i = 0; i < c; i++) { big[n++] = 0x01; big[n++] = 0xf6; } big[n++] = 0xff; break; } /* indefinite map */
+        case 4: { size_t c = payload / 4; big[n++] = 0x5f; for (size_t i = 0; i < c; i++) { big[n++] = 0x41; big[n++] = 0x00; } big[n++] = 0xff; break; }  /* many chunks */
+        case 5: big[n++] = 0x82; big[n++] = 0x01; big[n++] = 0xc2; big[n++] = 0x5a; big[n++] = (unsigned char)(payload >> 24); big[n++] = (unsigned char)(payload >> 16); big[n++] = (unsigned char)(payload >> 8);
+                big[n++] = (unsigned char)payload; memset(big + n, 0xA5, payload); n += payload; break;   /* [1, 2(h'...')] */
+        default: { size_t c = payload / 2; big[n++] = 0x9f; memset(big + n, 0x20, c); n += c; big[n++] = 0xff; break; }
+      }
+      one_load(big, n);
+    }
+    free(big);
   } else if (!strcmp(mode, "deep")) {
     /* every opener kind nested N deep (far beyond any nesting limit), unclosed and closed: the decoder must refuse with
      * an error code, and must do so without exhausting the native stack */
